@@ -355,7 +355,7 @@ theorem splitToSize_content (c : SizeConfig) (text : Str) (bs : List Boundary) (
     rw [splitToSize, if_neg h, if_neg hmax]
     simp only [sp] at hsp
     rw [dif_pos hsp]; simp
-  | case4 rem bs h hmax sp hsp chunk rest hchunk ih =>
+  | case4 rem bs h hmax sp hsp chunk rest bs' hchunk ih =>
     rw [splitToSize, if_neg h, if_neg hmax]
     simp only [sp] at hsp
     rw [dif_neg hsp]
@@ -366,7 +366,7 @@ theorem splitToSize_content (c : SizeConfig) (text : Str) (bs : List Boundary) (
     rw [ih rfl, hcut]
     simp only [rest, sp]
     rw [stripWs_trimSpace_any, ← stripWs_trimSpace_any (rem.take _), hchunk, stripWs_nil, List.nil_append]
-  | case5 rem bs h hmax sp hsp chunk rest hchunk ih =>
+  | case5 rem bs h hmax sp hsp chunk rest bs' hchunk ih =>
     rw [splitToSize, if_neg h, if_neg hmax]
     simp only [sp] at hsp
     rw [dif_neg hsp]
